@@ -206,8 +206,10 @@ def generate(seed, tier, index=0):
             q, alias = list(d["ref"]), True  # the queries ARE the reference (same content; same object when 'alias')
             if d["kind"] == "lookup":
                 k = 1
+        # max_custom_distance is documented as "ignored if custom distance is not supplied": passing it must change nothing
+        mcd = rng.choice([0, 1, 0.5, 2, 5]) if rng.random() < 0.12 else None
         return {"slot": slot, "queries": q, "mode": mode, "k": k, "progress": rng.random() < sw["p_progress"],
-                "container": rng.choice(["list", "list", "list", "ndarray", "tuple"]), "alias_ref": alias and rng.random() < 0.5}
+                "container": rng.choice(["list", "list", "list", "ndarray", "tuple"]), "alias_ref": alias and rng.random() < 0.5, "mcd": mcd}
 
     new_build(0)
     while len(ops) < sw["n_ops"]:
@@ -248,7 +250,10 @@ def generate(seed, tier, index=0):
             k = d["k"] if d["kind"] == "symdel" else a["k"]
             ops.append({"op": "oneshot", "fn": rng.choice(["symdel", "nearest_neighbor"]), "slot": s, "queries": a["queries"],
                         "mode": a["mode"], "k": k, "progress": a["progress"], "container": a["container"],
-                        "ref_container": rng.choice(["list", "list", "ndarray", "tuple"]), "alias_ref": a.get("alias_ref", False)})
+                        "ref_container": rng.choice(["list", "list", "ndarray", "tuple"]), "alias_ref": a.get("alias_ref", False),
+                        "mcd": a.get("mcd"),
+                        # documented as "ignored" by symdel (max_returns, n_cpu) and nearest_neighbor (n_cpu)
+                        "ignored_kw": rng.choice([{"n_cpu": 3}, {"n_cpu": 16}, {"max_returns": 1}]) if rng.random() < 0.1 else None})
         elif r < 0.62 and sw["faults"]:
             s = rng.choice(live)
             a = lookup_args(s)
@@ -397,6 +402,11 @@ def execute(trace, ctx=None):
             fc = FaultyCallable(oracles.levenshtein, fault["fail_at"])
             cd = fc
 
+        extra = {}
+        if op.get("mcd") is not None and not callable(cd):
+            extra["max_custom_distance"] = op["mcd"]
+            stats["max_custom_distance_without_custom_distance"] += 1
+
         def do_call():
             qarg = _container(queries, op.get("container", "list"))
             if kind == "oneshot":
@@ -404,15 +414,19 @@ def execute(trace, ctx=None):
                 rarg = _container(o["ref"], op.get("ref_container", "list"))
                 if op.get("alias_ref") and queries == o["ref"]:
                     qarg = rarg  # one object on both sides
-                kw = dict(max_edits=k, custom_distance=cd, seqs2=qarg)
+                kw = dict(max_edits=k, custom_distance=cd, seqs2=qarg, **extra)
+                ig = op.get("ignored_kw") or {}
                 if op["fn"] == "symdel":
                     kw["progress"] = bool(op.get("progress"))
+                    kw.update(ig)
+                elif "n_cpu" in ig:
+                    kw.update(ig)
                 return fn(rarg, **kw)
             if op.get("alias_ref") and queries == o["ref"]:
                 qarg = o["refarg"]  # the very list the database was built from
             if o["kind"] == "symdel":
-                return o["obj"].lookup(qarg, custom_distance=cd, progress=bool(op.get("progress")))
-            return o["obj"].lookup(qarg, max_edits=k, custom_distance=cd, progress=bool(op.get("progress")))
+                return o["obj"].lookup(qarg, custom_distance=cd, progress=bool(op.get("progress")), **extra)
+            return o["obj"].lookup(qarg, max_edits=k, custom_distance=cd, progress=bool(op.get("progress")), **extra)
 
         outcome = None
         fired = False
@@ -574,4 +588,7 @@ def signature(trace, v):
     faulted = any(op["op"] == "faulty_lookup" for op in trace["ops"])
     n_look = sum(1 for op in trace["ops"] if op["op"] in ("lookup", "faulty_lookup"))
     hist = "after_fault" if faulted else ("repeated" if n_look > 1 else "first_lookup")
+    step = v.get("step")
+    if isinstance(step, int) and 0 <= step < len(trace["ops"]) and trace["ops"][step].get("mcd") is not None:
+        hist += "+max_custom_distance_without_custom_distance"
     return "/".join([PROP, v["oracle"], v.get("op", ""), v.get("mode", "default"), v.get("cond", "general"), hist])
